@@ -203,8 +203,8 @@ Definition rec_class (o : oracle) (rec : node -> ty -> result RecResult) (k : cl
 (* ---- the hierarchy (Recognizer.__recognize_user_classes) and the dispatcher ---- *)
 Definition class_of_tag (reg : registry) (t : ustring) : option cls :=
   match t with
-  | 33 :: c => find_cls reg c         (* '!' ++ name *)
-  | _ => None
+  | c0 :: c => if N.eqb c0 33 then find_cls reg c else None        (* '!' ++ name *)
+  | [] => None
   end.
 
 (* descent into the registered direct subclasses, parametrised by the recursive call *)
